@@ -7,7 +7,12 @@ src=$(realpath "$1"); name=$2; shift 2
 out=/verif/seeded/$name; mkdir -p "$out"
 cp "$src/patch.diff" "$src/demo.py" "$out/" ; cp "$src/meta.json" "$out/agent_meta.json" 2>/dev/null
 wt=$(mktemp -d /tmp/vseed.XXXXXX)
-git -C /repo worktree add -q --detach "$wt" HEAD || exit 2
+base=${BASE:-HEAD}
+git -C /repo worktree add -q --detach "$wt" "$base" || exit 2
+if ! git -C "$wt" apply --check "$out/patch.diff" 2>/dev/null; then
+  # the seed was written against an earlier tree: fall back to the commit before the try/finally re-indentation
+  git -C /repo worktree remove --force "$wt"; base=e019c9f^; git -C /repo worktree add -q --detach "$wt" "$base" || exit 2
+fi
 export PYTHONPATH="$wt" PYTHONDONTWRITEBYTECODE=1
 ( cd "$wt" && timeout 600 /venv/bin/python "$out/demo.py" >"$out/demo_unmodified.log" 2>&1 ); d0=$?
 if ! git -C "$wt" apply "$out/patch.diff" 2>"$out/apply.log"; then echo "$name: PATCH DOES NOT APPLY"; git -C /repo worktree remove --force "$wt"; exit 2; fi
@@ -28,5 +33,5 @@ done
 git -C /repo worktree remove --force "$wt"
 echo "$name: demo_unmodified_exit=$d0 demo_modified_exit=$d1 tests='$tests' violations_reported:$res"
 cat > "$out/verify.json" <<EOJ
-{"name": "$name", "repo_head": "$(git -C /repo rev-parse --short HEAD)", "demo_unmodified_exit": $d0, "demo_modified_exit": $d1, "tests_with_change": "$tests", "checks": "$res"}
+{"name": "$name", "repo_head": "$(git -C /repo rev-parse --short $base)", "demo_unmodified_exit": $d0, "demo_modified_exit": $d1, "tests_with_change": "$tests", "checks": "$res"}
 EOJ
